@@ -969,6 +969,8 @@ structure TI (req r : Dgram) (T Δ : Nat) (ph : Ph) (y : Sys) : Prop where
   hwait : ph = .waiting → ∃ n, y.c.L = Wt n ∧ n.timeout = T ∧ ∀ p ∈ y.cLog, p.2 = req → p.1 + T * 2 ^ n.cnt ≤ n.due
   hnack : ph = .nacked → ∀ p ∈ y.cLog, p.2 = req → p.1 + T * 2 ^ maxRetransmit ≤ y.now
   hsrv : ∀ q ∈ y.sLog, q.2 = r → ∃ p ∈ y.cLog, p.2 = req ∧ q.1 < p.1 + Δ
+  hpb : ph ≠ .acked                     -- a piggybacking server never sends an empty ACK …
+  hsl : ∀ q ∈ y.sLog, q.2 = r           -- … all it ever transmits is the response
 
 /-- after the NACK no copy of the response can still be on its way -/
 theorem no_late_arrival {req r : Dgram} {T Δ : Nat} {y : Sys} (ht : TI req r T Δ .nacked y)
@@ -991,13 +993,22 @@ theorem no_late_arrival {req r : Dgram} {T Δ : Nat} {y : Sys} (ht : TI req r T 
 theorem nacked_of_score {ph : Ph} (h : scoreN .nacked = scoreN ph + 0) : ph = .nacked := by
   cases ph <;> simp [scoreN] at h ⊢
 
+theorem acked_back {req r : Dgram} {ph : Ph} {c : Client} (hc : PhOk req r ph c) (hI : c.L = Idle)
+    (hR : scoreR .acked = scoreR ph + 0) (hN : scoreN .acked = scoreN ph + 0) : ph = .acked := by
+  cases ph with
+  | waiting => exact absurd rfl (not_waiting_of_Idle hc hI)
+  | acked => rfl
+  | responded => simp [scoreR] at hR
+  | nacked => simp [scoreN] at hN
+
 /-- the timing invariant over a step of the server -/
 theorem tstep_server {req r : Dgram} {s0 : Server} {T Δ : Nat} (ph : Ph) (y : Sys)
     (hj : J req r s0 ph y) (ht : TI req r T Δ ph y) (now : Nat) (hnow : y.now ≤ now) (se : SEvent)
     (hnew : ∀ d, Out.tx d ∈ (y.s.step se).2 → d = r → ∃ p ∈ y.cLog, p.2 = req ∧ now < p.1 + Δ)
-    (ph' : Ph) (hc' : PhOk req r ph' y.c) (hN : scoreN ph' = scoreN ph + 0) :
+    (hnew' : ∀ d, Out.tx d ∈ (y.s.step se).2 → d = r)
+    (ph' : Ph) (hc' : PhOk req r ph' y.c) (hN : scoreN ph' = scoreN ph + 0) (hR : scoreR ph' = scoreR ph + 0) :
     TI req r T Δ ph' (y.sStep now se).1 := by
-  refine ⟨?_, ?_, ?_⟩
+  refine ⟨?_, ?_, ?_, ?_, ?_⟩
   · intro hp; subst hp
     obtain ⟨⟨n, hL, _⟩, _⟩ := hc'
     have := (ph_of_Wt hj.hc hL).1
@@ -1014,16 +1025,23 @@ theorem tstep_server {req r : Dgram} {s0 : Server} {T Δ : Nat} (ph : Ph) (y : S
     · obtain ⟨h1, h2⟩ := mem_txAt.mp hq
       obtain ⟨p, hp, hpr, hlt⟩ := hnew q.2 h2 hqr
       exact ⟨p, hp, hpr, by rw [h1]; exact hlt⟩
+  · intro hp; subst hp
+    exact ht.hpb (acked_back hj.hc hc'.1 hR hN)
+  · intro q hq
+    simp only [Sys.sStep, List.mem_append] at hq
+    rcases hq with hq | hq
+    · exact ht.hsl q hq
+    · exact hnew' q.2 (mem_txAt.mp hq).2
 
 /-- the timing invariant over a step of the client that is an arrival -/
 theorem tstep_rx {req r : Dgram} {s0 : Server} (X : Exchange req r) {T Δ : Nat} (ph : Ph) (y : Sys)
     (hj : J req r s0 ph y) (ht : TI req r T Δ ph y) (now : Nat) (hnow : y.now ≤ now) (d : Dgram) (ok : Bool)
-    (he : ExEv req r (.rx now d ok))
+    (he : ExEv req r (.rx now d ok)) (hd : d = r)
     (ph' : Ph) (hc' : PhOk req r ph' (y.c.step (.rx now d ok)).1)
-    (hN : scoreN ph' = scoreN ph + nNack (y.c.step (.rx now d ok)).2) :
+    (hN : scoreN ph' = scoreN ph + nNack (y.c.step (.rx now d ok)).2) (hR4 : d = r → ph' = .responded) :
     TI req r T Δ ph' (y.cStep now (.rx now d ok)).1 := by
   obtain ⟨hI, h0⟩ := rx_step_facts X y.c (PhOk_shape hj.hc) now d ok he
-  refine ⟨?_, ?_, ?_⟩
+  refine ⟨?_, ?_, ?_, (by rw [hR4 hd]; intro h; cases h), ht.hsl⟩
   · intro hp
     exact absurd hp (not_waiting_of_Idle hc' hI)
   · intro hp; subst hp
@@ -1045,7 +1063,8 @@ theorem tstep_rx {req r : Dgram} {s0 : Server} (X : Exchange req r) {T Δ : Nat}
 theorem tstep_tick {req r : Dgram} {s0 : Server} (X : Exchange req r) {T Δ : Nat} (hT : 0 < T) (ph : Ph) (y : Sys)
     (hj : J req r s0 ph y) (ht : TI req r T Δ ph y) (now : Nat) (hnow : y.now ≤ now)
     (ph' : Ph) (hc' : PhOk req r ph' (y.c.step (.tick now)).1)
-    (hN : scoreN ph' = scoreN ph + nNack (y.c.step (.tick now)).2) :
+    (hN : scoreN ph' = scoreN ph + nNack (y.c.step (.tick now)).2)
+    (hR : scoreR ph' = scoreR ph + nRsp (y.c.step (.tick now)).2) :
     TI req r T Δ ph' (y.cStep now (.tick now)).1 := by
   have hsrv : ∀ q ∈ (y.cStep now (.tick now)).1.sLog, q.2 = r →
       ∃ p ∈ (y.cStep now (.tick now)).1.cLog, p.2 = req ∧ q.1 < p.1 + Δ := by
@@ -1059,13 +1078,13 @@ theorem tstep_tick {req r : Dgram} {s0 : Server} (X : Exchange req r) {T Δ : Na
     have hc : n.d.type = .con := by rw [hnd]; exact X.hreq
     have hex := tick_Wt_explicit y.c now n hL hc (by rw [hnT]; exact hT)
     have hstep : y.c.step (.tick now) = y.c.tick now := rfl
-    rw [hstep] at hc' hN
+    rw [hstep] at hc' hN hR
     simp only [Sys.cStep, hstep]
     by_cases hdue : n.due ≤ now
     · by_cases hcnt : n.cnt < maxRetransmit
       · simp only [hdue, hcnt, if_true] at hex
         rw [hex] at hc' hN ⊢
-        refine ⟨?_, ?_, ?_⟩
+        refine ⟨?_, ?_, ?_, (by rw [(ph_of_Wt hc' rfl).1]; intro h; cases h), ht.hsl⟩
         · intro _
           refine ⟨_, rfl, hnT, ?_⟩
           intro p hp hpr
@@ -1082,7 +1101,7 @@ theorem tstep_tick {req r : Dgram} {s0 : Server} (X : Exchange req r) {T Δ : Na
           exact this
       · simp only [hdue, hcnt, if_true, if_false] at hex
         rw [hex] at hc' hN ⊢
-        refine ⟨?_, ?_, ?_⟩
+        refine ⟨?_, ?_, ?_, (by intro hp; subst hp; simp [scoreN] at hN), ht.hsl⟩
         · intro hp
           exact absurd hp (not_waiting_of_Idle hc' rfl)
         · intro _ p hp hpr
@@ -1097,7 +1116,7 @@ theorem tstep_tick {req r : Dgram} {s0 : Server} (X : Exchange req r) {T Δ : Na
           exact this
     · simp only [hdue, if_false] at hex
       rw [hex] at hc' hN ⊢
-      refine ⟨?_, ?_, ?_⟩
+      refine ⟨?_, ?_, ?_, (by rw [(ph_of_Wt hc' hL).1]; intro h; cases h), ht.hsl⟩
       · intro _
         exact ⟨n, hL, hnT, by simpa [txAt] using hb⟩
       · intro hp; subst hp
@@ -1112,9 +1131,9 @@ theorem tstep_tick {req r : Dgram} {s0 : Server} (X : Exchange req r) {T Δ : Na
       | responded => exact hj.hc.1
       | nacked => exact hj.hc
     have hstep : y.c.step (.tick now) = (y.c, []) := tick_Idle_client y.c now hI
-    rw [hstep] at hc' hN
+    rw [hstep] at hc' hN hR
     simp only [Sys.cStep, hstep]
-    refine ⟨?_, ?_, ?_⟩
+    refine ⟨?_, ?_, ?_, (by intro hp; subst hp; exact ht.hpb (acked_back hj.hc hI hR hN)), ht.hsl⟩
     · intro hp
       exact absurd hp (not_waiting_of_Idle hc' hI)
     · intro hp; subst hp
@@ -1131,27 +1150,46 @@ theorem tstep_tick {req r : Dgram} {s0 : Server} (X : Exchange req r) {T Δ : Na
 theorem tstep {req r : Dgram} {s0 : Server} (X : Exchange req r) (hr : SReq req) (hq : SQuiet s0 req)
     (hrr : r = respFor s0 req) (hp : s0.pers = .pb) {T Δ : Nat} (hT : 0 < T) (ph : Ph) (y : Sys)
     (hj : J req r s0 ph y) (ht : TI req r T Δ ph y) (e : SysEv) (hn : y.Net Δ e)
-    (ph' : Ph) (hj' : J req r s0 ph' (y.step e).1) (hN : scoreN ph' = scoreN ph + nNack (y.step e).2) :
+    (ph' : Ph) (hj' : J req r s0 ph' (y.step e).1) (hN : scoreN ph' = scoreN ph + nNack (y.step e).2)
+    (hR : scoreR ph' = scoreR ph + nRsp (y.step e).2) (hR4 : isRspS r e → ph' = .responded) :
     TI req r T Δ ph' (y.step e).1 := by
   cases e with
-  | cTick now => exact tstep_tick X hT ph y hj ht now hn ph' hj'.hc hN
-  | toC sent now d ok => exact tstep_rx X ph y hj ht now hn.2.1 d ok (toC_ok hj hn.1 now ok) ph' hj'.hc hN
+  | cTick now => exact tstep_tick X hT ph y hj ht now hn ph' hj'.hc hN hR
+  | toC sent now d ok =>
+    exact tstep_rx X ph y hj ht now hn.2.1 d ok (toC_ok hj hn.1 now ok) (ht.hsl _ hn.1) ph' hj'.hc hN hR4
   | sTick now =>
-    refine tstep_server ph y hj ht now hn (.tick now) ?_ ph' hj'.hc (by simpa [Sys.step, Sys.sStep] using hN)
-    intro d hd
-    exact absurd hd (SInv_step_pb hr hq hp y.s hj.hs _ (.tick now) (fun _ h => by cases h) d)
+    refine tstep_server ph y hj ht now hn (.tick now) ?_ ?_ ph' hj'.hc (by simpa [Sys.step, Sys.sStep] using hN)
+      (by simpa [Sys.step, Sys.sStep] using hR)
+    · intro d hd
+      exact absurd hd (SInv_step_pb hr hq hp y.s hj.hs _ (.tick now) (fun _ h => by cases h) d)
+    · intro d hd
+      exact absurd hd (SInv_step_pb hr hq hp y.s hj.hs _ (.tick now) (fun _ h => by cases h) d)
   | sApp now =>
-    refine tstep_server ph y hj ht now hn (.app now) ?_ ph' hj'.hc (by simpa [Sys.step, Sys.sStep] using hN)
-    intro d hd
-    exact absurd hd (SInv_step_pb hr hq hp y.s hj.hs _ (.app now) (fun _ h => by cases h) d)
+    refine tstep_server ph y hj ht now hn (.app now) ?_ ?_ ph' hj'.hc (by simpa [Sys.step, Sys.sStep] using hN)
+      (by simpa [Sys.step, Sys.sStep] using hR)
+    · intro d hd
+      exact absurd hd (SInv_step_pb hr hq hp y.s hj.hs _ (.app now) (fun _ h => by cases h) d)
+    · intro d hd
+      exact absurd hd (SInv_step_pb hr hq hp y.s hj.hs _ (.app now) (fun _ h => by cases h) d)
   | toS sent now d =>
-    refine tstep_server ph y hj ht now hn.2.1 (.rx now d) ?_ ph' hj'.hc (by simpa [Sys.step, Sys.sStep] using hN)
-    intro d' hd' _
-    by_cases hdr : d = req
-    · subst hdr
-      exact ⟨(sent, d), hn.1, rfl, hn.2.2⟩
-    · exact absurd hd' (SInv_step_pb hr hq hp y.s hj.hs _ (toS_ok hj hn.1 now)
-        (fun now' h => by injection h with _ h2; exact hdr h2) d')
+    refine tstep_server ph y hj ht now hn.2.1 (.rx now d) ?_ ?_ ph' hj'.hc (by simpa [Sys.step, Sys.sStep] using hN)
+      (by simpa [Sys.step, Sys.sStep] using hR)
+    · intro d' hd' _
+      by_cases hdr : d = req
+      · subst hdr
+        exact ⟨(sent, d), hn.1, rfl, hn.2.2⟩
+      · exact absurd hd' (SInv_step_pb hr hq hp y.s hj.hs _ (toS_ok hj hn.1 now)
+          (fun now' h => by injection h with _ h2; exact hdr h2) d')
+    · intro d' hd'
+      by_cases hdr : d = req
+      · subst hdr
+        rw [SInv_step_pb_request hr hq hp y.s hj.hs now] at hd'
+        simp only [List.mem_cons, List.mem_nil_iff, or_false] at hd'
+        rcases hd' with hd' | hd'
+        · cases hd'
+        · injection hd' with hd'; rw [hd', hrr]
+      · exact absurd hd' (SInv_step_pb hr hq hp y.s hj.hs _ (toS_ok hj hn.1 now)
+          (fun now' h => by injection h with _ h2; exact hdr h2) d')
 
 theorem Sys.run_cons (y : Sys) (e : SysEv) (es : List SysEv) :
     y.run (e :: es) = (((y.step e).1.run es).1, (y.step e).2 ++ ((y.step e).1.run es).2) := rfl
@@ -1200,17 +1238,17 @@ theorem sys_run_pb {req r : Dgram} {s0 : Server} (X : Exchange req r) (hr : SReq
     ∀ (es : List SysEv) (ph : Ph) (y : Sys), J req r s0 ph y → TI req r T Δ ph y → y.RunOk Δ es →
       ∃ ph', J req r s0 ph' (y.run es).1 ∧ scoreR ph' = scoreR ph + nRsp (y.run es).2 ∧
         scoreN ph' = scoreN ph + nNack (y.run es).2 ∧
-        ((ph' = .waiting ∨ ph' = .acked) → ∀ e ∈ es, ¬ isRspS r e) := by
+        ((ph' = .waiting ∨ ph' = .acked) → ∀ e ∈ es, ¬ isRspS r e) ∧ ph' ≠ .acked := by
   intro es
   induction es with
-  | nil => intro ph y hj _ _; exact ⟨ph, hj, by simp [Sys.run], by simp [Sys.run], by simp⟩
+  | nil => intro ph y hj ht _; exact ⟨ph, hj, by simp [Sys.run], by simp [Sys.run], by simp, ht.hpb⟩
   | cons e es ih =>
     intro ph y hj ht hok
     obtain ⟨ph1, hj1, hr1, hn1, hrsp1⟩ :=
       jstep X hr hq hrr Δ ph y hj e hok.1 (fun h => by subst h; exact no_late_arrival ht hΔ e hok.1)
-    have ht1 := tstep X hr hq hrr hp hT ph y hj ht e hok.1 ph1 hj1 hn1
-    obtain ⟨ph2, hj2, hr2, hn2, hw2⟩ := ih ph1 (y.step e).1 hj1 ht1 hok.2
-    refine ⟨ph2, ?_, ?_, ?_, ?_⟩
+    have ht1 := tstep X hr hq hrr hp hT ph y hj ht e hok.1 ph1 hj1 hn1 hr1 hrsp1
+    obtain ⟨ph2, hj2, hr2, hn2, hw2, hna2⟩ := ih ph1 (y.step e).1 hj1 ht1 hok.2
+    refine ⟨ph2, ?_, ?_, ?_, ?_, hna2⟩
     · rw [Sys.run_cons]; exact hj2
     · rw [Sys.run_cons]; simp only [nRsp_append]; omega
     · rw [Sys.run_cons]; simp only [nNack_append]; omega
@@ -1234,7 +1272,7 @@ theorem start_J {req : Dgram} {s0 : Server} (hr : SReq req) (hq : SQuiet s0 req)
 theorem start_TI {req r : Dgram} {s0 : Server} (hr : SReq req) (c0 : Client) (hidle : c0.L = Idle)
     (now0 T Δ : Nat) : TI req r T Δ .waiting (Sys.start c0 s0 now0 req T) := by
   have hs := appSend_Idle c0 now0 req T hidle hr.hcon
-  refine ⟨?_, (fun h => by cases h), ?_⟩
+  refine ⟨?_, (fun h => by cases h), ?_, (fun h => by cases h), (fun q hq => by simp [Sys.start] at hq)⟩
   · intro _
     refine ⟨{ d := req, timeout := T, cnt := 0, due := now0 + T * 2 ^ 0 }, ?_, rfl, ?_⟩
     · simp only [Sys.start]; rw [hs]
@@ -1319,7 +1357,7 @@ theorem exactly_once_piggybacked {req : Dgram} (hr : SReq req) (s0 : Server) (hq
       nRsp ((Sys.start c0 s0 now0 req T).run es).2 + nNack ((Sys.start c0 s0 now0 req T).run es).2 = 1 ∨
       ∀ e ∈ es, ¬ isRspS (respFor s0 req) e) := by
   have hnd : s0.pers ≠ .dn := by rw [hp]; decide
-  obtain ⟨ph', hj, h1, h2, h3⟩ := sys_run_pb (exchange_of_server hr hnd) hr hq rfl hp hT hΔ es .waiting _
+  obtain ⟨ph', hj, h1, h2, h3, _⟩ := sys_run_pb (exchange_of_server hr hnd) hr hq rfl hp hT hΔ es .waiting _
     (start_J hr hq c0 hidle hfresh now0 T) (start_TI hr c0 hidle now0 T Δ) hok
   exact conclude_of_phase hj h1 h2 h3
 
@@ -1339,6 +1377,27 @@ theorem exactly_once_piggybacked_default {req : Dgram} (hr : SReq req) (s0 : Ser
   refine exactly_once_piggybacked hr s0 hq hp c0 hidle hfresh now0 (calcTimeout b) ackTimeout ?_ ?_ es hok
   · simp only [ackTimeout] at h; omega
   · simp only [ackTimeout, maxRetransmit] at h ⊢; omega
+
+/-- **exactly once, piggybacked response: never neither** — a piggybacking server never sends an empty ACK, so the
+    D5 situation cannot arise: whenever the client is quiet at the end of a run of the closed loop (send queue empty:
+    nothing left to retransmit), the request HAS concluded, exactly once — with no side condition at all (the first
+    conjunct of `exactly_once_piggybacked` gives "at most once" for every run, quiet or not). -/
+theorem exactly_once_piggybacked_quiet {req : Dgram} (hr : SReq req) (s0 : Server) (hq : SQuiet s0 req)
+    (hp : s0.pers = .pb) (c0 : Client) (hidle : c0.L = Idle) (hfresh : fresh c0 (respFor s0 req))
+    (now0 T Δ : Nat) (hT : 0 < T) (hΔ : 2 * Δ ≤ T * 2 ^ maxRetransmit) (es : List SysEv)
+    (hok : (Sys.start c0 s0 now0 req T).RunOk Δ es)
+    (hquiet : ((Sys.start c0 s0 now0 req T).run es).1.c.L.sendq = []) :
+    nRsp ((Sys.start c0 s0 now0 req T).run es).2 + nNack ((Sys.start c0 s0 now0 req T).run es).2 = 1 := by
+  have hnd : s0.pers ≠ .dn := by rw [hp]; decide
+  obtain ⟨ph', hj, h1, h2, _, h4⟩ := sys_run_pb (exchange_of_server hr hnd) hr hq rfl hp hT hΔ es .waiting _
+    (start_J hr hq c0 hidle hfresh now0 T) (start_TI hr c0 hidle now0 T Δ) hok
+  cases ph' with
+  | waiting =>
+    obtain ⟨⟨n, hL, _⟩, _⟩ := hj.hc
+    rw [hL] at hquiet; simp [Wt] at hquiet
+  | acked => exact absurd rfl h4
+  | responded => simp [scoreR, scoreN] at h1 h2; omega
+  | nacked => simp [scoreR, scoreN] at h1 h2; omega
 
 /-! ### whole runs: every Confirmable response is acknowledged, duplicates are not re-delivered -/
 
@@ -1415,7 +1474,7 @@ instance decTimerRuns : (c : Client) → (ts : List Nat) → Decidable (TimerRun
 def wPb : Server := { pers := .pb, dedup := false, D := 0, T := 2500, txMid := 5000 }
 def wAc : Server := { pers := .ac, dedup := true, D := 300, T := 2500, txMid := 5000 }
 
-/-- `exactly_once_piggybacked`: the first copy of the request reaches the server but its response is lost, the client
+/-- `exactly_once_piggybacked`, `exactly_once_piggybacked_quiet`: the first copy of the request reaches the server but its response is lost, the client
     retransmits at 3000, that copy is answered, the response arrives twice (duplicated, the second copy 1800 ms
     late), the timer keeps running: every hypothesis holds with Δ = ACK_TIMEOUT, one handler call, no NACK -/
 example :
